@@ -148,6 +148,20 @@ class ScnGen:
                     rids.remove((rid, dobj))
             m = mk_msg(kind, rid, (peer, "po%d" % rng.randint(0, 2)), (alias_for_msgs, dobj), pad, variant)
             payload = pickle.dumps(m)
+            if kind == "q" and maxv < self.real_max and rng.random() < 0.3:
+                # an undeliverable request that itself fits the limit while the error reply for it is at / over it
+                M, _, _ = _mods()
+                base = len(payload)
+                for target in rng.sample([maxv - 1, maxv, maxv + 1, maxv + 40], 4):
+                    got = None
+                    for k in range(max(0, (target - base) // 2 - 40), max(1, (target - base) // 2 + 40)):
+                        mm = mk_msg("q", rid, (peer, "po0"), (alias_for_msgs, "ghost" + "x" * k), 0, 1)
+                        if len(pickle.dumps(mm)) <= maxv and F.predict_err_sizes(M, R_NAME, mm).get("ud") == target:
+                            got = mm
+                            break
+                    if got is not None:
+                        payload = pickle.dumps(got)
+                        break
             if maxv < self.real_max and rng.random() < 0.35:
                 target = rng.choice([maxv, maxv, maxv - 1, maxv + 1])
                 mk = lambda k: mk_msg(kind, rid, (peer, "po0"), (alias_for_msgs, dobj), k, 1)   # noqa: E731
@@ -293,10 +307,16 @@ class ScnGen:
         # requests R's objects send over T / B
         reqT = [("t%d" % i, "rq%d" % rng.randint(0, 2)) for i in range(rng.choice([0, 1, 2, 3, 3, 5]))]
         reqB = [("b%d" % i, "rq%d" % rng.randint(0, 2)) for i in range(rng.choice([0, 1, 2]))]
-        piecesT, meanT = self.conn(roleT, "peerT", nT, fault, reqT, maxv, ["peerB", "$client_2"])
-        piecesB, meanB = self.conn(roleB, "peerB", rng.randint(1, 3), None, reqB, maxv, [])
+        # related peer names: the same name twice (allowed unless both are outgoing), prefix / suffix / case variants
+        nameB = "peerB"
+        if rng.random() < 0.25:
+            nameB = rng.choice(["peerT", "peerT2", "peer", "PEERT", "peerT "])
+            if nameB == "peerT" and roleT == "out" and roleB == "out":
+                nameB = "peerT2"
+        piecesT, meanT = self.conn(roleT, "peerT", nT, fault, reqT, maxv, [nameB, "$client_2"])
+        piecesB, meanB = self.conn(roleB, nameB, rng.randint(1, 3), None, reqB, maxv, [])
         conns = [{"role": roleT, "peer": "peerT", "pieces": [p.hex() for p in piecesT], "meaning": meanT},
-                 {"role": roleB, "peer": "peerB", "pieces": [p.hex() for p in piecesB], "meaning": meanB}]
+                 {"role": roleB, "peer": nameB, "pieces": [p.hex() for p in piecesB], "meaning": meanB}]
         steps = []
         order = [0, 1] if rng.random() < 0.5 else [1, 0]
         evq = {}
@@ -318,7 +338,10 @@ class ScnGen:
                     steps_open = ["open", ci, pre, False]
                     skip = pre
             else:
-                steps_open = ["open", ci, "fail"] if (ci == 1 and rng.random() < 0.03) else ["open", ci]
+                r = rng.random()
+                steps_open = (["open", ci, "fail"] if (ci == 1 and r < 0.03) else
+                              ["open", ci, "refused"] if (ci == 1 and r < 0.05) else
+                              ["open", ci, "nodelay"] if r < 0.10 else ["open", ci])
             evq[ci] = (steps_open, q)
             if skip is None:
                 continue
@@ -372,6 +395,10 @@ class ScnGen:
                         q.insert(rng.randint(0, len(q)), ["hdel", obj])
         for ci in order:
             steps.append(evq[ci][0])
+            if conns[ci]["role"] == "out" and rng.random() < 0.15:
+                steps.append(["dupconnect", ci])
+        if rng.random() < 0.05:
+            steps.append(["badconnect", rng.choice(["$client_1", "$client_2", "$client_7"])])
         qa, qb = list(evq[0][1]), list(evq[1][1])
         # keep a tail of bystander traffic for after everything that happens on connection 0
         tail_b = []
@@ -466,6 +493,8 @@ def alias_table(scn):
         if st[0] == "open":
             ci = st[1]
             if scn["conns"][ci]["role"] == "in":
+                if len(st) > 2 and st[2] == "refused":
+                    continue                      # accept() itself failed: no connection, no alias
                 n += 1
                 out[ci] = "$client_%d" % n
             else:
@@ -505,9 +534,11 @@ def _run_steps(M, scn, ctx, run, split_rng):
         if op == "open":
             ci = st[1]
             c = scn["conns"][ci]
-            opened.add(ci)
+            mode = st[2] if (c["role"] == "in" and len(st) > 2) else None
+            if mode != "refused":
+                opened.add(ci)
             if c["role"] == "in":
-                ctx.accept(ci, not (len(st) > 2 and st[2] == "fail"))
+                ctx.accept(ci, send_ok=(mode != "fail"), accept_fails=(mode == "refused"), nodelay_fails=(mode == "nodelay"))
             else:
                 pre = streams[ci][:st[2]]
                 pos[ci] = st[2]
@@ -540,12 +571,21 @@ def _run_steps(M, scn, ctx, run, split_rng):
             info["unmutated"] = ctx.send(alias, m, payload, ok, ctx.socks.get(ci))
         elif op == "disc":
             ctx.disconnect(aliases.get(st[1], "nowhere"))
+        elif op == "dupconnect":
+            # a second connect_to_peer to a peer that is (or was) connected under that name
+            ci = st[1]
+            _, exc = ctx.connect(50 + ci, scn["conns"][ci]["peer"], b"", True, split_rng)
+            info["exc"] = None if exc is None else type(exc).__name__
+        elif op == "badconnect":
+            _, exc = ctx.connect(60, st[1], b"", True, split_rng)
+            info["exc"] = None if exc is None else type(exc).__name__
         elif op == "hadd":
             ctx.hadd(st[1], st[2])
         elif op == "hdel":
             if st[1] in ctx.handlers:
                 ctx.hdel(st[1])
         info["known"] = {ci: ctx.sm.has_peer_context(aliases[ci]) for ci in opened}
+        info["npeers"] = len(ctx.sm.get_peer_context_names())
         info["closed"] = {ci: ctx.socks[ci].closed for ci in opened}
         info["registered"] = sorted(ctx.router._address_to_messagehandler_map.keys())
         run.step_info.append(info)
@@ -674,10 +714,12 @@ def oracle(scn, run: Run):
         if info is None:
             break
         ctxclass = "valid-stream"
-        ci = st[1] if op in ("open", "data", "eof", "send", "disc") else None
+        ci = st[1] if op in ("open", "data", "eof", "send", "disc", "dupconnect") else None
         c = conns[ci] if ci is not None else None
         losskind = None
-        if op == "open":
+        if op == "open" and c.role == "in" and len(st) > 2 and st[2] == "refused":
+            pass                                  # accept() failed: there is no connection at all
+        elif op == "open":
             c.opened = True
             c.alias = aliases[ci]
             if c.role == "in" and len(st) > 2 and st[2] == "fail":
@@ -727,6 +769,12 @@ def oracle(scn, run: Run):
                     exp.append(("err", sobj, rid))
             elif kind == "q" and rid not in c.outstanding:
                 c.outstanding[rid] = sobj
+        elif op in ("dupconnect", "badconnect"):
+            # must be refused (or fail) with an exception and must not disturb anything that exists
+            if info["exc"] is None:
+                add("containment:connect:%s:no-exception" % op, "connect_to_peer returned normally")
+            if si > 0 and info["npeers"] != run.step_info[si - 1]["npeers"]:
+                add("containment:connect:%s:peer-map-changed" % op, "number of known peers changed")
         elif op == "hadd":
             handlers[st[1]] = st[2]
         elif op == "hdel":
